@@ -879,17 +879,49 @@ func resplit(t tuple) []tuple {
 // collisionClass names the known-finding class of two distinct typed tuples
 // with the same identity text.
 func collisionClass(a, b tuple) string {
-	if a.hasNull() || b.hasNull() {
-		return "idkey-nil-collision"
+	for _, t := range []tuple{a, b} {
+		for _, v := range t {
+			if v.Null || v.zero() {
+				return "idkey-nil-collision" // a NULL / zero member rendered as the text "nil"
+			}
+		}
 	}
 	return "idkey-collision"
+}
+
+var plainStringT = reflect.TypeOf("")
+
+// idTextTyped is idText with the declared column types taken into account: the
+// zero value of a defined string type (type CodeT string) is not caught by
+// ToStringKey's `case string` and is rendered "nil" like every other zero value.
+func idTextTyped(m *model, fields []string, t tuple) string {
+	s := make([]string, len(t))
+	for i, v := range t {
+		ft := fieldType(m, fields[i])
+		switch {
+		case v.Null:
+			s[i] = "nil"
+		case v.Str && v.S == "" && ft.Kind() == reflect.String && ft != plainStringT:
+			s[i] = "nil"
+		case v.Str:
+			s[i] = v.S
+		default:
+			s[i] = fmt.Sprint(v.I)
+		}
+	}
+	return strings.Join(s, "_")
 }
 
 // roleGuard keeps, per feeding role, the identity texts seen so far and tells
 // whether a new tuple collides with a different tuple (and in which class).
 type roleGuard struct {
+	fam  *family
 	seen map[role]map[string]tuple
 	feed map[role]bool
+}
+
+func (rg *roleGuard) text(ro role, t tuple) string {
+	return idTextTyped(rg.fam.m(ro.model), strings.Split(ro.fields, ","), t)
 }
 
 // allNull: every member is NULL (gorm skips such a key; a pointer to "" or 0 is
@@ -907,7 +939,7 @@ func (rg *roleGuard) collides(ro role, t tuple) string {
 	if !rg.feed[ro] || len(t) < 2 || t.allNull() {
 		return ""
 	}
-	txt := t.idText()
+	txt := rg.text(ro, t)
 	if old, ok := rg.seen[ro][txt]; ok {
 		same := len(old) == len(t)
 		for i := range t {
@@ -929,8 +961,8 @@ func (rg *roleGuard) add(ro role, t tuple) {
 	if rg.seen[ro] == nil {
 		rg.seen[ro] = map[string]tuple{}
 	}
-	if _, ok := rg.seen[ro][t.idText()]; !ok {
-		rg.seen[ro][t.idText()] = append(tuple(nil), t...)
+	if _, ok := rg.seen[ro][rg.text(ro, t)]; !ok {
+		rg.seen[ro][rg.text(ro, t)] = append(tuple(nil), t...)
 	}
 }
 
@@ -939,7 +971,7 @@ func (rg *roleGuard) add(ro role, t tuple) {
 // by construction (the row is dropped / the foreign key is blanked) and counted.
 func genGraph(rt *rapid.T, f *family, l load) *graph {
 	g := &graph{fam: f, rows: map[string][]row{}}
-	rg := &roleGuard{seen: map[role]map[string]tuple{}, feed: l.feedRoles(f)}
+	rg := &roleGuard{fam: f, seen: map[role]map[string]tuple{}, feed: l.feedRoles(f)}
 	excluded := func(class string) bool {
 		if class != "" && harness.OpenClass("C11", class) {
 			evid.Excluded(class)
@@ -3074,6 +3106,12 @@ func TestC11WitnessIDKeyNilCollision(t *testing.T) {
 		g := graphOf(famByName("D"), us[0], us[1], &DCompany{K1: "nil", K2: "x"})
 		witness(t, g, load{Mode: "query", Root: "DUser", Shape: "slice", Preloads: []preloadSpec{{Path: "Company"}}})
 	}
+	// the same with the zero value of a defined string type (CodeT ""), which
+	// ToStringKey's `case string` does not catch: languages (4,"") and (4,"nil")
+	g := graphOf(famByName("C"), &CUser{Org: 1, Code: "a"}, &CUser{Org: 1, Code: "b"},
+		&CLang{Org: 4, Code: ""}, &CLang{Org: 4, Code: "nil"},
+		&CUserLang{UserOrg: 1, UserCode: "a", LangOrg: 4, LangCode: ""}, &CUserLang{UserOrg: 1, UserCode: "b", LangOrg: 4, LangCode: "nil"})
+	witness(t, g, load{Mode: "query", Root: "CUser", Shape: "slice", Preloads: []preloadSpec{{Path: "Langs"}}})
 }
 
 // Association("Boss").Find on a composite-key belongs-to whose parent has no
